@@ -1387,7 +1387,7 @@ int main(int argc, char** argv) {
                 pairs += hits;
                 if (hits > 0 && hits < n) nt = true;
               }
-              uint64_t h = hash_bytes(cnt, sizeof cnt, ord + 1);  // the input (multiset, order)
+              uint64_t h = hash_bytes(cnt, sizeof cnt, 7);  // distinct = distinct point multisets (input order ignored)
               c.distinct(h);
               if (nt && n > 8) c.nontrivial(h);
               c.count("cases");
@@ -1395,7 +1395,7 @@ int main(int argc, char** argv) {
               c.count("pairs_expected", pairs);
               if (idx % 700001 == 0) c.sample(ds);
             },
-            {"cases", "queries", "pairs_expected", "skipped"}, 24);
+            {"cases", "queries", "pairs_expected", "skipped"}, thorough ? 25 : 23);
   }
 
   // ---------- polygon k-d tree: all subsets of >= 9 points of the 4x4 lattice (distinct points) x all 100 rectangles
